@@ -7,6 +7,33 @@ sys.path.insert(0, os.path.dirname(os.path.abspath(__file__)))
 os.environ.setdefault('PYTHONHASHSEED', '0')
 
 
+def watchdog(prop, tier, seed):
+    """A check that does not end shows nothing: after a generous limit (a quick run takes minutes) the run is ended with a
+    VIOLATION line naming where it was stuck (calls into the implementation have their own, much shorter, limits)."""
+    import threading
+    limit = int(os.environ.get('VERIF_WATCHDOG_S') or (2700 if tier == 'quick' else 6 * 3600))
+
+    def fire():
+        import faulthandler
+        import io
+        from common import write_replay
+        try:
+            import tempfile
+            with tempfile.TemporaryFile('w+') as f:
+                faulthandler.dump_traceback(file=f, all_threads=True)
+                f.seek(0)
+                where = f.read().splitlines()[:60]
+        except Exception as e:  # noqa
+            where = [repr(e)]
+        path = write_replay(prop, dict(property=prop, broken='the check did not end within %d s' % limit, stuck_at=where,
+                                       tier=tier, seed=seed), tag='watchdog')
+        print('VIOLATION property=%s replay=%s no-failing-input-found' % (prop, path), flush=True)
+        os._exit(1)
+    t = threading.Timer(limit, fire)
+    t.daemon = True
+    t.start()
+
+
 def main():
     args = sys.argv[1:]
     prop = args[0]
@@ -25,7 +52,20 @@ def main():
     mod = importlib.import_module(prop.lower())
     if replay:
         return mod.replay(replay)
-    return mod.main(tier, seed)
+    watchdog(prop.upper(), tier, seed)
+    try:
+        return mod.main(tier, seed)
+    except Exception:  # noqa
+        # the check itself could not run to its end against this tree (its harness drives the implementation through the
+        # public API and reads its private state): the property is then not shown to hold
+        import traceback
+        from common import write_replay
+        tb = traceback.format_exc()
+        sys.stderr.write(tb)
+        path = write_replay(prop.upper(), dict(property=prop.upper(), broken='the check did not run to its end against the current tree',
+                                               traceback=tb.splitlines()[-30:], tier=tier, seed=seed), tag='harness')
+        print('VIOLATION property=%s replay=%s no-failing-input-found' % (prop.upper(), path))
+        return 1
 
 
 if __name__ == '__main__':
